@@ -57,6 +57,7 @@ TARGETS += [
     ("block.rs", _BI, "advance", "bi_advance", {}, "BlockIter"),
     ("block.rs", _BI, "seek_to_last", "bi_seek_to_last", {}, "BlockIter"),
     ("block.rs", _BI, "prev", "bi_prev", {}, "BlockIter"),
+    ("block.rs", r"impl\s+Block\b", "is_well_formed", "block_is_well_formed", {}),
     ("block_builder.rs", r"impl\s+BlockBuilder", "entries", "bb_entries", {}, "BlockBuilder"),
     ("block_builder.rs", r"impl\s+BlockBuilder", "size_estimate", "bb_size_estimate", {}, "BlockBuilder"),
     ("block_builder.rs", r"impl\s+BlockBuilder", "add", "bb_add", {}, "BlockBuilder"),
@@ -597,7 +598,7 @@ def lean_ty(t):
         return " × ".join(par(lean_ty(x)) if isinstance(x, tuple) else lean_ty(x) for x in t[1])
     if isinstance(t, str) and t.startswith("struct:"):
         return STRUCTS[t[7:]]["lean"]
-    return {"bool": "Bool", "bytes": "Bytes", "ordering": "Ordering", "unit": "Unit", "policy": "Bytes → Bytes → Bool", "natlist": "List Nat"}[t]
+    return {"bool": "Bool", "bytes": "Bytes", "ordering": "Ordering", "unit": "Unit", "policy": "Bytes → Bytes → Bool", "natlist": "List Nat", "usizelist": "List Nat"}[t]
 
 
 class Ctx:
@@ -647,6 +648,11 @@ def assigned_vars(stmts, acc=None):
         if e[0] == "block":
             walk(e[1])
             return
+        if e[0] == "matchopt":
+            walk_expr(e[1]); walk(e[3]); walk(e[4])
+            return
+        if e[0] == "closure":
+            return
         for x in e[1:]:
             if isinstance(x, tuple):
                 walk_expr(x)
@@ -667,6 +673,9 @@ def assigned_vars(stmts, acc=None):
                 if r and r not in declared and r not in acc:
                     acc.append(r)
                 walk_expr(s[3])
+            elif s[0] == "natset":
+                if s[1] not in declared and s[1] not in acc:
+                    acc.append(s[1])
             elif s[0] in ("while",):
                 walk_expr(s[1]); walk(s[2])
             elif s[0] == "for":
@@ -687,6 +696,8 @@ def always_leaves(stmts):
         return True
     if s[0] == "expr" and isinstance(s[1], tuple) and s[1][0] == "if" and s[1][3] is not None:
         return always_leaves(s[1][2]) and always_leaves(s[1][3])
+    if s[0] == "expr" and isinstance(s[1], tuple) and s[1][0] == "matchopt":
+        return always_leaves(s[1][3]) and always_leaves(s[1][4])
     return False
 
 
@@ -701,6 +712,7 @@ class Emitter:
         self.sites = 0
         self.uses_fuel = False
         self.uses_cmp = False
+        self.closures = {}
 
     def fresh(self, p):
         self.n += 1
@@ -814,6 +826,9 @@ class Emitter:
             return self.binop(e, env, want)
         if k == "index":
             b, bt = self.expr(e[1], env)
+            if bt in ("natlist", "usizelist") and e[2][0] != "range":
+                i, _ = self.expr(e[2], env, "usize")
+                return "(← Rt.idxN %s %s %s)" % (b, par(i), self.site("index")), ("usize" if bt == "usizelist" else "u32")
             if bt != "bytes":
                 raise Untranslatable("indexing a non-byte sequence")
             ix = e[2]
@@ -824,9 +839,9 @@ class Emitter:
             i, it = self.expr(ix, env, "usize")
             return "(← Rt.idx %s %s %s)" % (b, par(i), self.site("index")), "u8"
         if k == "natidx":
-            a, _ = self.expr(e[1], env)
+            a, at_ = self.expr(e[1], env)
             i, _ = self.expr(e[2], env, "usize")
-            return "(← Rt.idxN %s %s %s)" % (a, par(i), self.site("index")), "u32"
+            return "(← Rt.idxN %s %s %s)" % (a, par(i), self.site("index")), ("usize" if at_ == "usizelist" else "u32")
         if k == "tuple":
             wants = want[1] if isinstance(want, tuple) and want[0] == "tuple" and len(want[1]) == len(e[1]) else [None] * len(e[1])
             items = [self.expr(x, env, w) for x, w in zip(e[1], wants)]
@@ -835,8 +850,12 @@ class Emitter:
             items = [self.expr(x, env, "u8") for x in e[1]]
             return "[" + ", ".join("Rt.byteLit %s" % par(c) for c, _ in items) + "]", "bytes"
         if k == "arrayrep":
-            v, _ = self.expr(e[1], env, "u8")
+            et = self.peek_type(e[1], env)
             n, _ = self.expr(e[2], env, "usize")
+            if et in INTS and et != "u8":
+                v, _ = self.expr(e[1], env, et)
+                return "(List.replicate %s %s)" % (par(n), par(v)), ("usizelist" if et == "usize" else "natlist")
+            v, _ = self.expr(e[1], env, "u8")
             return "(List.replicate %s (Rt.byteLit %s))" % (par(n), par(v)), "bytes"
         if k == "if":
             if e[3] is None:
@@ -945,6 +964,11 @@ class Emitter:
 
     def call(self, path, args, env, want):
         p = "::".join(path)
+        if p in ("usize::decode_var", "u64::decode_var") and len(args) == 1:
+            a, at_ = self.expr(args[0], env)
+            if at_ != "bytes":
+                raise Untranslatable("decode_var of a non-byte slice")
+            return "(decodeVarint %s)" % par(a), ("option", ("tuple", ("usize", "usize")))
         if p == "u32::decode_fixed" and len(args) == 1:
             a, _ = self.expr(args[0], env)
             return "(← Rt.decodeFixed32Chk %s %s)" % (par(a), self.site("decode_fixed")), "u32"
@@ -956,6 +980,23 @@ class Emitter:
                 if "←" in c:
                     raise Untranslatable("capacity expression that can panic")
             return "([] : Bytes)", "bytes"
+        if len(path) == 1 and path[0] in self.closures:
+            _, ps, rt, body = self.closures[path[0]]
+            if len(ps) != len(args):
+                raise Untranslatable("closure arity")
+            env2 = dict(env)
+            pre = []
+            for (pn, pt), a in zip(ps, args):
+                c, t = self.expr(a, env, pt)
+                if pt is not None and pt != t:
+                    raise Untranslatable("closure argument of type %s for %s" % (t, pt))
+                ln = self.fresh("arg_" + pn + "_")
+                env2[pn] = (ln, t)
+                pre.append("let %s : %s := %s; " % (ln, lean_ty(t), c))
+            code, t = self.block_value(body, env2, rt)
+            if rt is not None and rt != t:
+                raise Untranslatable("closure returns %s, declared %s" % (t, rt))
+            return "(← (do %s%s))" % ("".join(pre), code), t
         if len(path) == 1 and path[0] in self.known:
             return self.fn_call(path[0], args, env)
         raise Untranslatable("call of %s" % p)
@@ -1018,11 +1059,11 @@ class Emitter:
             if m == "is_empty" and not args:
                 return "(%s).isEmpty" % r, "bool"
             raise Untranslatable("method .%s on bytes" % m)
-        if rt == "natlist":
+        if rt in ("natlist", "usizelist"):
             if m == "len" and not args:
                 return "(%s).length" % r, "usize"
-            if m in ("iter", "clone") and not args:
-                return r, "natlist"
+            if m in ("iter", "iter_mut", "clone") and not args:
+                return r, rt
             raise Untranslatable("method .%s on a Vec of integers" % m)
         if rt in INTS:
             w = WIDTH[rt]
@@ -1081,6 +1122,10 @@ class Emitter:
             if act is not None:
                 return "let (self_, %s) ← %s\n%s" % (pat, act, self.stmts(rest, env2, ctx))
             return "let %s := %s\n%s" % (pat, code, self.stmts(rest, env2, ctx))
+        if k == "let" and isinstance(s[3], tuple) and s[3][0] == "closure":
+            # a local closure is inlined at its calls (it may only read immutable locals)
+            self.closures[s[1]] = s[3]
+            return self.stmts(rest, env, ctx)
         if k == "let" and self.is_mut_call(s[3]):
             _, name, ty, init, mut = s
             act, rt = self.mut_call(init, env)
@@ -1105,6 +1150,10 @@ class Emitter:
                 raise Untranslatable("let %s: %s initialised with %s" % (name, ty, t))
             env2[name] = (nm, t)
             return "let %s : %s := %s\n%s" % (nm, lean_ty(t), c, self.stmts(rest, env2, ctx))
+        if k == "natset":
+            _, lv, j, var = s
+            nm = env[lv][0]
+            return "let %s : List Nat := %s.set %s %s\n%s" % (nm, nm, env[j][0], env[var][0], self.stmts(rest, env, ctx))
         if k == "assert":
             c, _ = self.expr(s[1], env, "bool")
             return "Rt.assertR %s %s\n%s" % (par(c), self.site("assert"), self.stmts(rest, env, ctx))
@@ -1132,6 +1181,8 @@ class Emitter:
                 if t != self.ret:
                     raise Untranslatable("tail expression of type %s, function returns %s" % (t, self.ret))
                 return ctx.on_return(c)
+            if e[0] == "matchopt":
+                return self.match_stmt(e, rest, env, ctx)
             if e[0] == "if":
                 if tail and not rest and e[3] is not None and self.ret != "unit":
                     # `if` as the value of the function: both branches end in their own tail expression
@@ -1302,6 +1353,43 @@ class Emitter:
         return "let %s := fun (%s : %s) => do\n%s\nif %s then do\n%s\nelse do\n%s" % (
             j, ("_s" if not vs else "s_"), sty, ind(self.destruct(vs, env, "s_") + restcode), c, ind(a), ind(b))
 
+    def match_stmt(self, e, rest, env, ctx):
+        """match <option> { Some(pat) => A, None => B } as a statement, followed by rest"""
+        _, scrut, (names, tup), some_body, none_body = e
+        c, t = self.expr(scrut, env)
+        if not (isinstance(t, tuple) and t[0] == "option"):
+            raise Untranslatable("match on a value of type %s" % (t,))
+        inner = t[1]
+        env_s = dict(env)
+        if tup:
+            if not (isinstance(inner, tuple) and inner[0] == "tuple" and len(inner[1]) == len(names)):
+                raise Untranslatable("Some((..)) pattern for %s" % (inner,))
+            lns = []
+            for n, ty in zip(names, inner[1]):
+                ln = self.lname(n, env)
+                lns.append(ln)
+                if n != "_":
+                    env_s[n] = (ln, ty)
+            pat = "(" + ", ".join(lns) + ")"
+        else:
+            ln = self.lname(names[0], env)
+            env_s[names[0]] = (ln, inner)
+            pat = ln
+        sl, nl = always_leaves(some_body), always_leaves(none_body)
+        if sl or nl or not rest:
+            a = self.stmts(some_body + (rest if not sl else []), env_s, ctx)
+            b = self.stmts(none_body + (rest if not nl else []), env, ctx)
+            return "match %s with\n| some %s => do\n%s\n| none => do\n%s" % (c, pat, ind(a), ind(b))
+        vs = [v for v in assigned_vars(some_body + none_body) if v in env]
+        j = self.fresh("join")
+        st, sty = self.state(vs, env)
+        restcode = self.stmts(rest, env, ctx)
+        jctx = Ctx(lambda env2: "%s %s" % (j, self.state(vs, env2)[0]), ctx.on_return, ctx.on_break, ctx.on_continue, ctx.on_return_w)
+        a = self.stmts(some_body, env_s, jctx)
+        b = self.stmts(none_body, env, jctx)
+        return "let %s := fun (%s : %s) => do\n%s\nmatch %s with\n| some %s => do\n%s\n| none => do\n%s" % (
+            j, ("_s" if not vs else "s_"), sty, ind(self.destruct(vs, env, "s_") + restcode), c, pat, ind(a), ind(b))
+
     def destruct(self, vs, env, s):
         if not vs:
             return ""
@@ -1352,6 +1440,15 @@ class Emitter:
             return "let %s : Nat := %s\nlet %s : Nat := %s\n%s" % (hi, hi_c, i, lo_c, code)
         # for b in <bytes>.iter()
         xs_c, xs_t = self.expr(it, env)
+        if xs_t in ("natlist", "usizelist") and it[0] == "mcall" and it[2] == "iter_mut" and it[1][0] == "var" and it[1][1] in env:
+            # `for l in v.iter_mut() { .. *l = e .. }`: index loop over v itself, the element is written back
+            lv = it[1][1]
+            j = self.fresh("j")
+            env2[j] = (j, "usize")
+            cond = ("bin", "<", ("var", j), ("mcall", ("var", lv), "len", []))
+            body2 = [("let", var, None, ("natidx", ("var", lv), ("var", j)), True)] + body + [("natset", lv, j, var)]
+            code = self.loop_counter(cond, body2, j, rest, env2, ctx)
+            return "let %s : Nat := 0\n%s" % (j, code)
         if xs_t == "natlist":
             xs, j = self.fresh("xs"), self.fresh("j")
             env2[xs] = (xs, "natlist")
